@@ -38,6 +38,64 @@ Proof.
   rewrite (resolve_nonlink fs lp x Hr Hp Hx true _ Hg eq_refl), Hg. reflexivity.
 Qed.
 
+(* NewUnpackInfo on a path that already holds something that is not a link *)
+Section Existing.
+Variable fs0 : node.
+Variable dst : str.
+Hypothesis Hdst : dst_ok dst.
+Hypothesis Hroot0 : is_dir fs0 = true.
+Hypothesis HD : rdir fs0 (comps_of dst).
+Notation D := (comps_of dst).
+Notation atd := (at_dst fs0 (comps_of dst)).
+Variable X : node.
+Variable pre : list str.
+Variable x : str.
+Variable nd : node.
+Hypothesis HX : is_dir X = true.
+Hypothesis HrX : rdir X pre.
+Hypothesis Hsegs : forallb seg_ok (pre ++ [x]) = true.
+Hypothesis Hg0 : get X (pre ++ [x]) = Some nd.
+Hypothesis Hnl : is_link nd = false.
+Notation rel := (pre ++ [x]).
+
+Lemma ex_plain : forallb plainb (D ++ pre) = true /\ plain x = true.
+Proof.
+  pose proof (seg_ok_plainb _ Hsegs) as Hp. rewrite forallb_app in Hp. apply andb_true_iff in Hp as [H1 H2].
+  cbn in H2. apply andb_true_iff in H2 as [H2 _]. split; [|exact H2]. now rewrite forallb_app, (D_plain dst Hdst), H1.
+Qed.
+
+Lemma ex_atd_facts : is_dir (atd X) = true /\ rdir (atd X) (D ++ pre) /\ get (atd X) ((D ++ pre) ++ [x]) = Some nd.
+Proof.
+  pose proof (D_plain dst Hdst) as HDp.
+  split; [apply at_dst_root; auto|]. split; [apply rdir_at_dst; auto|].
+  rewrite <- app_assoc, (get_at_dst fs0 D HD). exact Hg0.
+Qed.
+
+Lemma new_unpack_info_existing_any e tr :
+  e_name e = entry_name rel tr -> is_sym e = false -> (is_dir_e e || is_reg e) = true ->
+  new_unpack_info (atd X) dst e = Some (D ++ pre ++ [x]).
+Proof.
+  intros Hn Hsym Hty. destruct ex_atd_facts as (Hd & Hr & Hg). destruct ex_plain as [Hp Hx].
+  unfold new_unpack_info. rewrite Hn.
+  assert (Hne : rel <> []) by (destruct pre; discriminate).
+  assert (Hfirst : exists c r, entry_name rel tr = c :: r /\ Ascii.eqb c slash = false).
+  { unfold entry_name. destruct rel as [|g rest] eqn:E; [congruence|].
+    pose proof Hsegs as Hs. rewrite ?E in Hs. cbn in Hs. apply andb_true_iff in Hs as [Hg1 _].
+    pose proof (plain_not_empty _ (seg_ok_plain _ Hg1)) as Hgn. pose proof (seg_ok_no_slash _ Hg1) as Hgs.
+    destruct g as [|c g']; [congruence|]. exists c.
+    assert (Hc : Ascii.eqb c slash = false).
+    { destruct (Ascii.eqb_spec c slash) as [->|]; [exfalso; apply Hgs; now left|reflexivity]. }
+    destruct rest as [|s1 rest'].
+    - exists (g' ++ (if tr then [slash] else [])). split; [reflexivity|exact Hc].
+    - exists ((g' ++ slash :: join_with slash (s1 :: rest')) ++ (if tr then [slash] else [])). split; [reflexivity|exact Hc]. }
+  destruct Hfirst as (c & r & Hcr & Hc). rewrite Hcr, Hc. rewrite <- Hcr.
+  unfold rel_inside. rewrite (fjoin_comps dst rel tr Hdst Hne Hsegs).
+  rewrite strip_prefix_self, Hsym.
+  rewrite (lstat_walk_existing (atd X) pre D x _ _ Hd Hr Hp Hx ltac:(rewrite app_assoc; exact Hg) Hnl).
+  destruct (is_dir_e e), (is_reg e); cbn in *; try reflexivity; discriminate.
+Qed.
+End Existing.
+
 Section LastWins.
 Variable allow : list str.
 Variable fs0 : node.
@@ -85,24 +143,9 @@ Lemma new_unpack_info_existing e :
   e_name e = entry_name rel false -> is_sym e = false -> is_reg e = true ->
   new_unpack_info (atd X) dst e = Some (D ++ pre ++ [x]).
 Proof.
-  intros Hn Hsym Hreg. destruct (lw_atd_facts X _ HX HrX Hg0) as (Hd & Hr & Hg). destruct lw_plain as [Hp Hx].
-  unfold new_unpack_info. rewrite Hn.
-  assert (Hne : rel <> []) by (destruct pre; discriminate).
-  assert (Hfirst : exists c r, entry_name rel false = c :: r /\ Ascii.eqb c slash = false).
-  { unfold entry_name. destruct rel as [|g rest] eqn:E; [congruence|].
-    pose proof Hsegs as Hs. rewrite ?E in Hs. cbn in Hs. apply andb_true_iff in Hs as [Hg1 _].
-    pose proof (plain_not_empty _ (seg_ok_plain _ Hg1)) as Hgn. pose proof (seg_ok_no_slash _ Hg1) as Hgs.
-    destruct g as [|c g']; [congruence|]. exists c.
-    assert (Hc : Ascii.eqb c slash = false).
-    { destruct (Ascii.eqb_spec c slash) as [->|]; [exfalso; apply Hgs; now left|reflexivity]. }
-    destruct rest as [|s1 rest'].
-    - exists (g' ++ []). split; [reflexivity|exact Hc].
-    - exists ((g' ++ slash :: join_with slash (s1 :: rest')) ++ []). split; [reflexivity|exact Hc]. }
-  destruct Hfirst as (c & r & Hcr & Hc). rewrite Hcr, Hc. rewrite <- Hcr.
-  unfold rel_inside. rewrite (fjoin_comps dst rel false Hdst Hne Hsegs).
-  rewrite strip_prefix_self, Hsym.
-  rewrite (lstat_walk_existing (atd X) pre D x _ _ Hd Hr Hp Hx ltac:(rewrite app_assoc; exact Hg) eq_refl).
-  rewrite Hreg. destruct (is_dir_e e); reflexivity.
+  intros Hn Hsym Hreg.
+  apply (new_unpack_info_existing_any fs0 dst Hdst Hroot0 HD X pre x _ HX HrX Hsegs Hg0 eq_refl e false Hn Hsym).
+  rewrite Hreg. apply orb_true_r.
 Qed.
 
 Theorem last_file_entry_wins is_root dirs e :
@@ -182,3 +225,63 @@ Proof.
     rewrite (IH (put X (pre ++ [x]) F1) _ _ _ dirs e_last H1 H2 H3 (fun e' He' => Hall e' (or_intror He'))).
     now rewrite (lw_collapse X pre x d0 pm0 mt0 Hg0).
 Qed.
+
+(* ---------- the same directory path again ---------- *)
+Section DirAgain.
+Variable allow : list str.
+Variable fs0 : node.
+Variable dst : str.
+Hypothesis Hdst : dst_ok dst.
+Hypothesis Hroot0 : is_dir fs0 = true.
+Hypothesis HD : rdir fs0 (comps_of dst).
+Notation D := (comps_of dst).
+Notation atd := (at_dst fs0 (comps_of dst)).
+
+(* a directory entry for a path that already is a directory (made for a child that came first, or
+   by an earlier entry): nothing changes now, the entry's permissions and time are queued *)
+Lemma dir_entry_again X pre x pm0 mt0 kids is_root dirs e :
+  is_dir X = true -> rdir X pre -> forallb seg_ok (pre ++ [x]) = true ->
+  get X (pre ++ [x]) = Some (Dir pm0 mt0 kids) ->
+  e_name e = entry_name (pre ++ [x]) true -> e_type e = ty_dir ->
+  unpack_entry is_root allow (atd X) dst dirs e = (atd X, dirs ++ [(D ++ pre ++ [x], e)], None).
+Proof.
+  intros HX HrX Hsegs Hg0 Hn Hty.
+  assert (Hsym : is_sym e = false) by (unfold is_sym; now rewrite Hty).
+  assert (Hdir : is_dir_e e = true) by (unfold is_dir_e; now rewrite Hty).
+  destruct (ex_atd_facts fs0 dst Hdst Hroot0 HD X pre x _ HX HrX Hg0) as (Hd & Hr & Hg).
+  destruct (ex_plain dst Hdst pre x Hsegs) as [Hp Hx].
+  unfold unpack_entry.
+  assert (Hnn : e_name e <> []).
+  { rewrite Hn. unfold entry_name. destruct (join_with slash (pre ++ [x])); discriminate. }
+  destruct (e_name e) as [|n0 nr] eqn:En; [congruence|]. rewrite <- En in *.
+  rewrite (new_unpack_info_existing_any fs0 dst Hdst Hroot0 HD X pre x _ HX HrX Hsegs Hg0 eq_refl e true Hn Hsym ltac:(now rewrite Hdir)).
+  replace (removelast (D ++ pre ++ [x])) with (D ++ pre) by (rewrite app_assoc; symmetry; apply removelast_snoc).
+  rewrite (mkdir_all_existing (atd X) (D ++ pre) 493 Hd Hr Hp).
+  rewrite Hsym, Hdir.
+  assert (Hrfull : rdir (atd X) (D ++ pre ++ [x])).
+  { apply rdir_at_dst; [exact HD|]. eapply rdir_of_get_dir. exact Hg0. }
+  assert (Hpfull : forallb plainb (D ++ pre ++ [x]) = true).
+  { rewrite app_assoc, forallb_app, Hp. cbn. unfold plainb. now rewrite Hx. }
+  rewrite (mkdir_all_existing (atd X) (D ++ pre ++ [x]) 493 Hd Hrfull Hpfull). reflexivity.
+Qed.
+
+(* the deferred restores of one directory path, in the order the entries were read: the last one
+   decides permissions and time, the contents are untouched *)
+Theorem last_dir_entry_wins pre x : forallb seg_ok (pre ++ [x]) = true ->
+  forall es X pm0 mt0 kids e_last more,
+    is_dir X = true -> rdir X pre -> get X (pre ++ [x]) = Some (Dir pm0 mt0 kids) ->
+    restore_dirs (atd X) (map (fun e => (D ++ pre ++ [x], e)) (es ++ [e_last]) ++ more)
+    = restore_dirs (atd (put X (pre ++ [x]) (Dir (e_mode e_last) (Some (sec_to_ns (e_mtime e_last))) kids))) more.
+Proof.
+  intros Hsegs. induction es as [|e es IH]; intros X pm0 mt0 kids e_last more HX HrX Hg.
+  - cbn [app map]. now rewrite (restore_one fs0 dst Hdst Hroot0 HD X pre x _ _ _ e_last more HX HrX Hsegs Hg).
+  - cbn [app map]. rewrite (restore_one fs0 dst Hdst Hroot0 HD X pre x _ _ _ e _ HX HrX Hsegs Hg).
+    set (V := Dir (e_mode e) (Some (sec_to_ns (e_mtime e))) kids).
+    assert (HX1 : is_dir (put X (pre ++ [x]) V) = true) by (destruct X; try discriminate; destruct pre; reflexivity).
+    assert (Hr1 : rdir (put X (pre ++ [x]) V) pre) by (now apply rdir_put_prefix).
+    assert (Hg1 : get (put X (pre ++ [x]) V) (pre ++ [x]) = Some V).
+    { apply get_put_same. left. now rewrite removelast_snoc. }
+    rewrite (IH _ _ _ _ e_last more HX1 Hr1 Hg1).
+    rewrite put_put_same by (rewrite Hg; discriminate). reflexivity.
+Qed.
+End DirAgain.
